@@ -537,7 +537,13 @@ Spans of submodels differ:
             if iteration < min_iter:
                 continue
 
-            diff = {k: current_values[k] - previous_values[k] for k in current_values}
+            # Non-finite (or overflowing) differences never count as converged:
+            # keep NumPy's warnings about them out of reach of the caller's own
+            # warnings filters
+            with np.errstate(over='ignore', invalid='ignore'):
+                diff = {
+                    k: current_values[k] - previous_values[k] for k in current_values
+                }
 
             if all(np.all(np.abs(v) < tol) for v in diff.values()):
                 status = SolutionStatus.SOLVED.value
